@@ -10,6 +10,7 @@ import ElysModel.Gen.Arith.perpStopLossGuards
 import ElysModel.Gen.Arith.perpTakeProfitGuards
 import ElysModel.Gen.Arith.lpLiquidateGuards
 import ElysModel.Gen.Arith.lpStopLossGuards
+import ElysModel.Gen.Arith.perpLiquidateGuards
 import ElysModel.Gen.Arith.perpOpenHealthGuards
 import ElysModel.Gen.Arith.perpConsolidateHealthGuards
 import ElysModel.Gen.Arith.lpOpenHealthGuards
@@ -76,6 +77,17 @@ theorem gen_free_lp_guards :
 theorem gen_free_perp_guards :
     Gen.Arith.freeOf "perpStopLossGuards" = ["#0.GetAssetPrice(#1, #2.TradingAsset)", "#0.GetAssetPrice(#1, #2.TradingAsset)#err", "#2.Position", "#2.StopLossPrice"] ∧
     Gen.Arith.freeOf "perpTakeProfitGuards" = ["#0.GetAssetPrice(#1, #2.TradingAsset)", "#0.GetAssetPrice(#1, #2.TradingAsset)#err", "#2.Position", "#2.TakeProfitPrice"] := by decide
+
+/-- perpetual liquidation (x/perpetual/keeper/process_mtp.go `CheckAndLiquidateUnhealthyPosition`): the window from the reading of the
+safety factor to the condition of the `if` whose branch force-closes the position — the branch is entered exactly when the model's
+`allowed … .liquidate` holds of the position's stored health (written a few statements earlier from `GetMTPHealth`, after interest and
+funding were settled) and the safety factor; nothing else is read. -/
+theorem gen_perp_liquidate (bc : String) (v : View) (hm : v.module = .perp) :
+    (Gen.Arith.perpLiquidateGuards bc v.safety v.health = .ok true) ↔ allowed v .liquidate = true := by
+  unfold Gen.Arith.perpLiquidateGuards allowed
+  by_cases h : v.health ≤ v.safety <;> simp [hm, h, pure, Except.pure]
+
+theorem gen_free_perp_liquidate : Gen.Arith.freeOf "perpLiquidateGuards" = ["#0.GetSafetyFactor(#1)", "#2.MtpHealth"] := by decide
 
 /-- opens start healthy, as the source has it now: the window of x/perpetual/keeper/process_open.go `ProcessOpen`, open_consolidate.go
 `OpenConsolidate` and x/leveragelp/keeper/position_open.go `ProcessOpenLong` from the reading of the position's health to the statement
